@@ -112,7 +112,7 @@ def check_crashes(res, ctx, jobs):
     st = ctx["stats"]
     hcases, m1 = [], []
     for truth, y, old, new, today, avail, spec, lookups in jobs:
-        hcases.append({"truth": [{"day": o["day"], "json": o["json"]} for o in truth], "year": y,
+        hcases.append({"truth": [dict(o) for o in truth], "year": y,
                        "old": [[d, s] for d, s in old] if old is not None else None,
                        "new": [[d, s] for d, s in new], "crash": spec, "today": today, "avail": avail,
                        "lookups": lookups})
@@ -336,3 +336,29 @@ def run(res, ctx):
         "persistence rule of Model/CrashFs.v (after a crash a file holds its synced part plus any prefix of what was written since; rename is atomic; fsync makes content durable) is an assumption about the platform; the injected crash is a process abort with exactly N content bytes handed to the file, not a power loss",
         "csv crate tokenisation outside the alphabet digits , . - + LF (quotes, CR) and rust_decimal parsing of more than 28 digits are not modelled",
     ]
+
+
+def replay(res, ctx, path):
+    import common
+    rep = json.load(open(path))
+    ctx.update(stats=collections.Counter(), seen=set(), samples=[], corr_diffs=[], oracle_failures=[])
+    r2 = common.Result("C14", ctx["tier"], ctx["seed"])
+    hc = rep.get("input")
+    if not hc or "crash" not in hc:
+        if hc and "content" in hc:
+            c = hc["content"]
+            io = run_harness(ctx["exe"], "parsecsv", [{"content": list(c.encode())}])[0]
+            mo = run_model([[3, len(c)] + list(c.encode())], group="rates")[0]
+            rd = Reader(mo)
+            rd.z()
+            m = R.read_drates(rd)
+            i = [(d, Fraction(s)) for d, s in io["rows"]]
+            print("replay: reader on %r: model %s, implementation %s" % (c, m, i))
+            return 0 if m == i else 1
+        print("replay: this replay file names no input (%s)" % rep.get("what", "")[:200])
+        return 1
+    truth = [R.load_obs(o) for o in hc["truth"]]
+    old = [tuple(x) for x in hc["old"]] if hc["old"] is not None else None
+    new = [tuple(x) for x in hc["new"]]
+    check_crashes(r2, ctx, [(truth, hc["year"], old, new, hc["today"], hc["avail"], hc["crash"], hc["lookups"])])
+    return R.replay_report(r2, ctx, "crash at %s" % (hc["crash"] or "no crash"))
